@@ -105,6 +105,11 @@ pub struct Run {
 }
 
 impl Run {
+    /// Total number of violation reports so far (vacuity guards must not pre-empt a verdict that is already there)
+    pub fn violation_hits(&self) -> u64 {
+        self.violation_hits.values().sum()
+    }
+
     pub fn new(args: &Args, level: &'static str) -> Self {
         Run {
             args: args.clone(),
